@@ -57,6 +57,33 @@ CLAIMED = {
             "proved as a whole: list items are concatenated without separators, which is ambiguous (genuine "
             "defect, recorded in KNOWN_FINDINGS.txt, replayed as an actual fit-hash collision); therefore level "
             "'other' rather than 'proof'.", "3 C12"),
+    "C03": ("other", "contract-based deductive verification of a representation invariant: whole-map postconditions on "
+            "FitProperties.__setitem__/reset/restore (one case per key, symbolic presence of every key), invariant "
+            "'results only for the stored settings' with ghost state on Indentation.fit_model and "
+            "apply_preprocessing (fitter under an assumed functional contract), normal and exceptional exits",
+            "Every finite operation sequence preserves the invariant because each public operation is proved to "
+            "preserve it for all states and arguments (real bodies, z3): changed settings drop results, unchanged "
+            "ones change nothing, a fitter is built exactly when something fit-relevant changed and its results "
+            "are the ones stored. What the fitter computes numerically is outside the contracts, hence 'other'.",
+            "3 C03"),
+    "C06": ("other", "contract-based deductive verification: remember/apply protocol of "
+            "Indentation.apply_preprocessing with ghost 'pipeline the columns hold' on normal and exceptional "
+            "exits, restart/deep-copy/order clauses of preproc.apply, syntactic raw-data obligation; bounded "
+            "bit-for-bit comparison of pipeline pairs on a recorded curve",
+            "For all requests (steps, options incl. None/empty) and all curve states: the same request is a no-op, "
+            "a changed one runs preproc.apply exactly once with this curve and the request, what is remembered is "
+            "what was applied, a rejected request is not remembered; preproc.apply restarts from raw data and "
+            "hands each step a deep copy of its options. Bit-identical columns are additionally exercised bounded.",
+            "3 C06"),
+    "C09": ("other", "contract-based deductive verification: case postcondition and totality of "
+            "Indentation.rate_quality over all curve states and argument kinds (get_rater under contract), per-curve "
+            "decision of IndentationRater.rate with uninterpreted features/pipeline, frame contract of get_rater "
+            "on the shipped hyper-parameters, totality of the feature predicates; syntactic/data obligations; "
+            "bounded runs over curve states x regressors x training sets",
+            "rate_quality never raises, returns -1 for 'none', reuses the cache exactly while hash, regressor, "
+            "training set (by content), names and LDA flag are unchanged and otherwise rates once with the given "
+            "arguments; rate() gives 0 / -1 / prediction as stated. The prediction's range and determinism rest on "
+            "scikit-learn (assumed) plus fixed random_state and shipped responses in 0..10 (checked).", "3 C09"),
 }
 
 NOT_APPLICABLE = {
